@@ -5,7 +5,37 @@ skeleton is also driven directly with reference-encoded arguments."""
 import json, os, re
 from concurrent.futures import ThreadPoolExecutor
 import gen, l2c, scrape, vlib
-from p_roundtrip import gen_batch, KNOWN, TESTS
+from p_roundtrip import gen_batch, wide_batch, KNOWN, TESTS
+
+
+def handle_words_probe(ctx_, work, rng, nb):
+    """'Object handles never travel inside data buffers' for the C, C++ and Rust stubs and skeletons:
+    the nine-pairing program of the C05 harness (real stubs and skeletons of all three backends) runs
+    with a wire spy between every caller and every implementation (rt/obj/main.c) that looks into every
+    input buffer before the call and every output buffer after it for a word that is half of an
+    object handle.  -> (calls seen, failures)"""
+    import l2obj, p_refcount
+    fails, seen = [], 0
+    for b in range(nb):
+        methods = l2obj.gen_methods(rng, 8, with_dup_path=(b == 0))
+        root = os.path.join(work, "obj%d" % b)
+        os.makedirs(root, exist_ok=True)
+        open(os.path.join(root, "l2.idl"), "w").write(l2obj.render_idl(methods))
+        err = p_refcount.emit(ctx_["idlc"], root)
+        if err:
+            continue
+        r = p_refcount.build(root, methods, sides=p_refcount.SIDES)
+        if r.get("stage") != "run":
+            continue
+        seen += r["out"].count("\nimpl ")
+        pairing = None
+        for l in r["out"].split("\n"):
+            if l.startswith("pairing "):
+                pairing = l[8:]
+            elif l.startswith("wireleak "):
+                fails.append({"property": ctx_["prop"], "idl": l2obj.render_idl(methods), "pairing (caller implementation)": pairing, "observed": l,
+                              "what": "half of an object handle travels inside a data buffer (%s, pairing %s)" % (l, pairing)})
+    return seen, fails[:12]
 
 
 def run(ctx_):
@@ -17,6 +47,7 @@ def run(ctx_):
         return res
     rng = vlib.mkrng(seed, prop)
     batches = [gen_batch(rng) for _ in range(nb)]
+    batches[-1] = wide_batch(rng)
     lines = []
     for b, (c, fs, methods) in enumerate(batches):
         root = os.path.join(work, "b%d" % b)
@@ -109,7 +140,10 @@ def run(ctx_):
             if nbad:
                 res["failures"].append({"property": prop, "known_class": cls, "idl": text,
                                         "what": "methods of class %s: wire bytes differ from the reference encoding (%d lines)" % (cls, nbad)})
+    hw_calls, hw_fails = handle_words_probe(ctx_, work, vlib.mkrng(seed, prop + "-handles"), 1 if tier == "quick" else 12)
+    res["failures"] += hw_fails
     res["coverage"] = {
+        "handle_words_probe": {"implementation_entries_seen": hw_calls, "pairings": "C, C++, Rust stubs x C, C++, Rust skeletons", "leaks": len(hw_fails)},
         "evaluations": ncmp, "distinct_nontrivial": distinct,
         "rule": "%d generated interfaces of 12 methods; per method outside the known classes and valuation: the (op, counts, BI bytes, BO capacities) a "
                 "compiled C stub hands the transport, the BO bytes the compiled skeleton returns, and the skeleton driven directly with reference-encoded "
